@@ -3,6 +3,12 @@ import json
 import common
 
 PROPS = "RotoV.Props.C07"
+# the rule "recursive constants" (value_cycle.rs): own module, so that a change of the algorithm breaks exactly its obligations
+PROPS_CYCLE = "RotoV.Props.C07Cycle"
+MODULES_CYCLE = [
+    "RotoV.Model.TcValueCycle", "RotoV.Model.TcValueCyclePinned", "RotoV.Lemmas.TcValueCycle",
+    "RotoV.Lemmas.TcValueCycleTarjan", "RotoV.Lemmas.TcValueCycleProg", "RotoV.Model.Tarjan", "RotoV.Lemmas.Tarjan", "RotoV.Lemmas.TarjanCtx", "RotoV.Lemmas.TarjanNoPanic",
+]
 MODULES = [
     "RotoV.Lemmas.TcRules", "RotoV.Lemmas.UnifyTc", "RotoV.Lemmas.Typing", "RotoV.Lemmas.TypingAux", "RotoV.Lemmas.TypingMono", "RotoV.Lemmas.TypingProg",
     "RotoV.Model.Typing", "RotoV.Model.TcRules", "RotoV.Model.UnifyTc",
@@ -19,8 +25,18 @@ def search(ctx):
 
 
 def run(ctx):
-    ctx.extract(["c07facts", "c07arms"])
-    ctx.prove(PROPS, extra_modules=MODULES)
+    ctx.extract(["c07facts", "c07arms", "c07cycle"])
+    parts = []
+    for module, extra in ((PROPS, MODULES), (PROPS_CYCLE, MODULES_CYCLE)):
+        for k in ("theorems", "nonvacuity_examples", "axioms"):
+            ctx.coverage.pop(k, None)
+        ctx.prove(module, extra_modules=extra)
+        if ctx.coverage.get("theorems"):  # prove() overwrites these: report both modules
+            parts.append({k: ctx.coverage.get(k) for k in ("theorems", "nonvacuity_examples", "axioms")})
+    if parts:
+        ctx.coverage["theorems"] = [t for p in parts for t in p["theorems"]]
+        ctx.coverage["nonvacuity_examples"] = sum(p["nonvacuity_examples"] or 0 for p in parts)
+        ctx.coverage["axioms"] = {k: v for p in parts for k, v in (p["axioms"] or {}).items()}
     if ctx.build_harness("c07"):
         ctx.harness("c07", ["run", ctx.seed, ctx.tier], timeout=3000)
     ctx.trusted += [
@@ -38,6 +54,10 @@ def run(ctx):
         "the translator target c07arms (call skeleton of TypeChecker::expr & co.: which helper, which order, which "
         "expected type; locals alpha-renamed) and its pinned copy Model/TcInferPinned.lean: the claim that "
         "Model/TcInfer.lean does what those arms do rests on the differential run (phase infer), which is testing",
+        "value_cycle.rs: the theorems of Props/C07Cycle are about the hand-written model Model/Tarjan.lean; it is tied to the "
+        "source by the regenerated statement skeleton (target c07cycle, pinned copy Model/TcValueCyclePinned.lean) and by the "
+        "differential run of phase cyc (real tarjan components and find_compilation_order outcome = the model's on every collected "
+        "graph); that the collected reference graph contains every use of a constant / function is tested (six syntactic positions), not proved",
         "Runtime::new() (no registered types / context); single-file scripts",
     ]
     return ctx.finish(
@@ -47,7 +67,9 @@ def run(ctx):
              "broken, category of the reported type error). Tables: every (operator, left shape, right shape) "
              "of the operator table (7 536 rows) by outcome; match heads by (variants, arms, verdict); "
              "unification scripts by (#ok, #fail, #variables); inference model vs checker by (representative | edit "
-             "kind, verdict incl. class of report)",
+             "kind, verdict incl. class of report); value cycles by (shape of the reference cycle, closing reference, rank "
+             "order of the item names | random: simple cycle or knot, size of the component, kind of the first-ranked item, verdict); "
+             "type cycles by (shape, closing mention, wrapper, record or enum first)",
         search=search,
     )
 
